@@ -10,6 +10,8 @@ ASSUMPTIONS = ["worker processes are virtual processes under harness/vsched.py (
 
 PARTS = [_compose.ko_part("ko", sdl_ko.gen_c16, sdl_ko.check_c16, 80, 1200, known=None)]
 
+from . import ctor_kd
+PARTS.append(_compose.Part("ctor_kd", ctor_kd.run_kd, ctor_kd.replay_kd, theorems=ctor_kd.THEOREMS, modules=ctor_kd.LEAN_MODULES))
 try:
     from . import mp_parts
     PARTS += mp_parts.parts("C16")
